@@ -120,6 +120,16 @@ inductive Outcome
   | panic
   deriving Repr, Inhabited
 
+/-- what ends a bind early -/
+inductive Stop
+  | err (e : Err)
+  | panic
+  deriving Repr, Inhabited
+
+def Stop.out : Stop → Outcome
+  | .err e => .err e
+  | .panic => .panic
+
 def mapMOpt {α β} (f : α → Option β) : List α → Option (List β)
   | [] => some []
   | a :: r => match f a, mapMOpt f r with
@@ -353,67 +363,71 @@ def structTyOf : Ty → List Fld
     (fields of the nested struct type, current struct value, getter, depth) ↦ outcome -/
 abbrev Nest := List Fld → Val → Getter → Nat → Outcome
 
+/-- the field is resolved (and nil embedded pointers on its path are allocated): file, map and
+    nested struct fields always; other fields when a value was found or a default is declared -/
+def wants (g : Getter) (f : FieldInfo) : Bool :=
+  isMapTy f.ty || isStructTy f.ty || (lookupField g f).2.2 || !f.dflt.isEmpty
+
+/-- one iteration of the loop of bindFieldsWithDepth on a resolved field whose current value is
+    `cur`: the value to store, or the outcome that ends the bind -/
+def fieldAction (P : Params) (cfg : Cfg) (nest : Nest) (g : Getter) (depth : Nat) (f : FieldInfo) (cur : Val) :
+    Val ⊕ Stop :=
+  if isMapTy f.ty then
+    match setMap P cfg f.ty cur g f.tagName with
+    | .error e => .inr (.err (.bind f.name e))
+    | .ok nv => .inl nv
+  else if isStructTy f.ty then
+    -- setNestedStructWithDepth (the depth check of the callee is made here)
+    if cfg.maxDepth < depth + 1 then .inr (.err (.bind f.name .depth))
+    else
+      let nfs := structTyOf f.ty
+      let inner := match cur with
+        | .ptr v => v
+        | .nil => zero (.struct nfs)
+        | v => v
+      match nest nfs inner (g.push f.tagName) (depth + 1) with
+      | .ok nv => .inl (match f.ty with
+        | .ptr _ => Val.ptr nv
+        | _ => nv)
+      | .err e => .inr (.err (.bind f.name e))
+      | .panic => .inr .panic
+  else
+    let (key, value, has) := lookupField g f
+    match (if has then none else f.typedDefault) with
+    | some d => .inl d
+    | none =>
+      let value := if has then value else f.dflt
+      if isSliceTy f.ty then
+        match setSlice P cfg f.ty cur (g.getAll key) with
+        | .error e => .inr (.err (.bind f.name e))
+        | .ok nv => .inl nv
+      else
+        match setField P cfg f.ty cur value with
+        | none => .inr (.err (.bind f.name .conv))
+        | some nv => .inl nv
+
 /-- the loop of bindFieldsWithDepth over the cached field table of struct type `sty`; the binding
-    of a nested struct is the parameter `nest` (its depth check is made at the call site) -/
+    of a nested struct is the parameter `nest` -/
 def loopWith (P : Params) (cfg : Cfg) (nest : Nest) (sty : List Fld) :
     List FieldInfo → Val → Getter → Nat → Outcome
   | [], elem, _, _ => .ok elem
   | f :: rest, elem, g, depth =>
-    match reach elem f.index with
+    match reach elem f.index with          -- fieldByIndex(elem, index, false)
     | .bad => .panic
     | _ =>
-      if isMapTy f.ty then
-        let elem1 := updAt (.struct sty) elem f.index id
-        match reach elem1 f.index with
-        | .ok cur =>
-          match setMap P cfg f.ty cur g f.tagName with
-          | .error e => .err (.bind f.name e)
-          | .ok nv => loopWith P cfg nest sty rest (updAt (.struct sty) elem1 f.index (fun _ => nv)) g depth
-        | _ => .panic
-      else if isStructTy f.ty then
-        let elem1 := updAt (.struct sty) elem f.index id
-        match reach elem1 f.index with
-        | .ok cur =>
-          if cfg.maxDepth < depth + 1 then .err (.bind f.name .depth)
-          else
-            let nfs := structTyOf f.ty
-            let inner := match cur with
-              | .ptr v => v
-              | .nil => zero (.struct nfs)
-              | v => v
-            match nest nfs inner (g.push f.tagName) (depth + 1) with
-            | .ok nv =>
-              let nv' := match f.ty with
-                | .ptr _ => Val.ptr nv
-                | _ => nv
-              loopWith P cfg nest sty rest (updAt (.struct sty) elem1 f.index (fun _ => nv')) g depth
-            | .err e => .err (.bind f.name e)
-            | .panic => .panic
-        | _ => .panic
+      if !wants g f then loopWith P cfg nest sty rest elem g depth
       else
-        let (key, value, has) := lookupField g f
-        if !has && f.dflt.isEmpty then loopWith P cfg nest sty rest elem g depth
-        else
-          let elem1 := updAt (.struct sty) elem f.index id
-          match reach elem1 f.index with
-          | .ok cur =>
-            match (if has then none else f.typedDefault) with
-            | some d => loopWith P cfg nest sty rest (updAt (.struct sty) elem1 f.index (fun _ => d)) g depth
-            | none =>
-              let value := if has then value else f.dflt
-              if isSliceTy f.ty then
-                match setSlice P cfg f.ty cur (g.getAll key) with
-                | .error e => .err (.bind f.name e)
-                | .ok nv => loopWith P cfg nest sty rest (updAt (.struct sty) elem1 f.index (fun _ => nv)) g depth
-              else
-                match setField P cfg f.ty cur value with
-                | none => .err (.bind f.name .conv)
-                | some nv => loopWith P cfg nest sty rest (updAt (.struct sty) elem1 f.index (fun _ => nv)) g depth
-          | _ => .panic
+        let elem1 := updAt (.struct sty) elem f.index id      -- fieldByIndex(elem, index, true)
+        match reach elem1 f.index with
+        | .ok cur =>
+          match fieldAction P cfg nest g depth f cur with
+          | .inl nv => loopWith P cfg nest sty rest (updAt (.struct sty) elem1 f.index (fun _ => nv)) g depth
+          | .inr o => o.out
+        | _ => .panic
 
 /-- bindFieldsWithDepth with `n` levels of nesting still allowed below this one. The recursion
     follows the code's own bound: a nested struct is entered only while `depth + 1 ≤ maxDepth`, so
-    starting from `maxDepth` at depth 0 the base case is never reached (`bindAt_zero_unreachable`). -/
+    with `n = maxDepth - depth` the `nest` of level 0 is never called. -/
 def bindAt (P : Params) (cfg : Cfg) (tag : Tag) : Nat → Nest
   | 0 => fun sty elem g depth =>
     loopWith P cfg (fun _ _ _ _ => .err .depth) sty (flatten P tag sty) elem g depth
